@@ -353,7 +353,7 @@ pub fn bfs(factory: Factory, cfg: &BfsCfg) -> Report {
     let mut depth = 0;
     loop {
         let expand = depth < cfg.max_depth;
-        let want_samples = if rep.samples.len() < 3 { 1 } else { 0 };
+        let want_samples = 1;
         let outs = run_parallel(&frontier, cfg.threads, 8, &|c: &[Node]| {
             expand_chunk(factory, c, expand, want_samples)
         });
@@ -368,8 +368,11 @@ pub fn bfs(factory: Factory, cfg: &BfsCfg) -> Report {
             rep.violations.extend(o.violations);
             rep.machinery_errors.extend(o.errors);
             for s in o.samples {
+                // keep one shallow sample and otherwise prefer the deepest histories seen
                 if rep.samples.len() < 3 {
                     rep.samples.push(s);
+                } else {
+                    rep.samples[2] = s;
                 }
             }
             for c in o.children {
